@@ -4,6 +4,7 @@
 -/
 import NdnVerif.Driver.Common
 import NdnVerif.C13.Text
+import NdnVerif.C13.Spec
 import NdnVerif.Gen.C13Schemas
 open Ndn Ndn.Driver Ndn.C13
 
@@ -45,6 +46,22 @@ def kindTag : Kind → String
 def topKinds : Fields → List String
   | .nil => []
   | .cons _ k fs => ("kind-" ++ kindTag k) :: topKinds fs
+
+/-- type number of the signature field when it is the last typed field of the model -/
+def lastSig : Fields → Option Nat
+  | .nil => none
+  | .cons t k fs =>
+    match lastSig fs with
+    | some x => some x
+    | none =>
+      match k with
+      | .signature => if (typedTypes fs).isEmpty then some t else none
+      | _ => none
+
+def setSig : Fields → Vals → Bytes → Vals
+  | .cons _ k fs, .cons v vs, sig =>
+    (match k with | .signature => .cons (.bytes sig) (setSig fs vs sig) | _ => .cons v (setSig fs vs sig))
+  | _, vs, _ => vs
 
 def parseSel (s : String) : Option (List Nat) :=
   if s == "-" then some [] else (s.splitOn ".").mapM String.toNat?
@@ -131,6 +148,40 @@ def stepC13 (st : St) (op : String) (got : String) : StepResult St :=
                 s!"an unrecognised {if crit then "critical (ignoreCritical)" else "non-critical"} element at position {selS}/{kS} was not skipped cleanly: {res.take 200}"⟩] else [])
         { st := st, expected := some expected, spec := noPanic op got s.name ++ spec,
           cov := [tag] ++ (if sel.isEmpty then [] else ["ins-nested"]), nontrivial := nonTrivialVs vs }
+    | _, _, _, _, _ => bad st
+  | ["sigins", ic, txt, sigHex, kS, junkHex] =>
+    match st.cur, structOf txt, bytesOfHex sigHex, kS.toNat?, bytesOfHex junkHex with
+    | some s, some vs, some sig, some k, some junk =>
+      match lastSig s.fields with
+      | none => { st := st, expected := some "skip" }
+      | some sigTyp =>
+        if got == "skip" then { st := st, expected := none }
+        else
+          -- the signed encoding = plain encoding ++ SignatureValue; junk at top-level boundary k
+          let implBytes := (bytesOfHex ((got.splitOn " ").getD 0 "")).getD []
+          let icb := ic == "1"
+          let items := (liveItems s.fields vs).map encItem ++ [tlv sigTyp sig]
+          if k > items.length then { st := st, expected := some "skip" }
+          else
+            let nb := (items.take k).flatten ++ junk ++ (items.drop k).flatten
+            let want := "ok " ++ (Val.struct (setSig s.fields vs sig)).toText
+            let expected := hexOrDash nb ++ " " ++ resText (parse s icb nb)
+            let jt := (decTL junk).map (·.1)
+            let known := match jt with
+              | some t => (fieldsTypes s.fields).contains t
+              | none => true
+            let crit := match jt with | some t => critical t | none => false
+            let res := " ".intercalate ((got.splitOn " ").drop 1)
+            let hasMap := implBytes != nb   -- map order may differ: then only the spec is evaluated
+            let spec :=
+              if known || isCrash got then []
+              else if crit && !icb then
+                (if res != "err" then [⟨"unknown-critical-rejected", s.name ++ ":signed", s!"an unrecognised CRITICAL element was accepted in a signed encoding: {res.take 200}"⟩] else [])
+              else
+                (if res != want then [⟨"unknown-noncritical-skipped", s.name ++ ":signed",
+                  s!"an unrecognised tolerated element at top-level position {kS} of a SIGNED encoding was not skipped cleanly: {res.take 200}"⟩] else [])
+            { st := st, expected := if hasMap then none else some expected, spec := noPanic op got s.name ++ spec,
+              cov := ["sigins"], nontrivial := nonTrivialVs vs }
     | _, _, _, _, _ => bad st
   | ["mut", ic, _txt, _how, _a, _b] =>
     match st.cur with
